@@ -128,6 +128,8 @@ type Interp struct {
 	inGo          int  // depth of synchronously executed `go` callees
 	inBlockedHook bool
 	cancelTarget  *ctxNode
+	lazyBufs      map[*Str]bool
+	blobByTerm    map[*Term]*blobRec
 	ctxNodes      []*ctxNode
 	encoded       []Value // values passed to (*json.Encoder).Encode, in order
 	initPhase  bool
@@ -857,6 +859,18 @@ func (fr *frame) visit(instr ssa.Instruction) bool {
 					in.goPanicf(x.Pos(), "makeslice", "makeslice: len out of range")
 				}
 			}
+		}
+		if bt, isB := et.Underlying().(*types.Basic); isB && bt.Kind() == types.Uint8 && !ln.IsConst() && cp == ln {
+			// a byte buffer of symbolic size (read buffers sized by a length prefix): a lazily
+			// filled view; io.ReadFull on a modelled reader gives it its content
+			ph := &Str{segs: []Seg{{sym: &SymStr{Len: ln}}}}
+			if in.lazyBufs == nil {
+				in.lazyBufs = map[*Str]bool{}
+			}
+			in.lazyBufs[ph] = true
+			in.note("make([]byte, n) with symbolic n: lazily filled read buffer")
+			fr.env[x] = BytesV{S: ph}
+			break
 		}
 		n := int(int64(in.concretize(ln, "make len")))
 		c := n
